@@ -127,3 +127,17 @@ Proof. vm_compute. reflexivity. Qed.
 (* ---------- constants ---------- *)
 Theorem pop_priority_matches_model : forall p a d, pop_prio (init_cst p a d) = gen_pop_priority_init.
 Proof. intros. reflexivity. Qed.
+
+(* ---------- the heap manager's request methods ---------- *)
+(* each is one blocking send on the manager's channel issued by the calling goroutine: this is what makes
+   the request queue of the model (Container.fifo: requests are received in the order the container goroutine
+   sent them) a description of the code.  On the pinned tree push could detach its send into a goroutine. *)
+Theorem heap_requests_are_blocking_sends :
+  forallb (fun m => String.eqb (snd m) "send") hm_methods = true /\
+  map fst hm_methods = ["sync"; "push"; "iter"; "fix"; "state"; "end"].
+Proof. vm_compute. split; reflexivity. Qed.
+
+(* ---------- terminal height ---------- *)
+(* pState.render keeps one row fewer than the terminal is high: the cursor rests below the last row *)
+Theorem terminal_keeps_a_spare_row : gen_terminal_height_adjust = (-1)%Z.
+Proof. reflexivity. Qed.
